@@ -145,7 +145,19 @@ def chunks_of(rows, size):
 def signature(row):
     """a stable signature of the operation that broke a clause (for known-finding keys)"""
     op = row.get("op", {})
-    return "%s.%s" % (row.get("c", "?"), op.get("m", "?"))
+    sig = "%s.%s" % (row.get("c", "?"), op.get("m", "?"))
+    if op.get("pair", "no") != "no":
+        sig += "+after-failed-%s" % ("terminate" if op["pair"] == "term" else "attempt")
+    return sig
+
+
+def violation_key(clause, row):
+    op = row.get("op", {})
+    # a termination attempt of an oracle voting that runs out of gas, followed in the same block by
+    # another transaction on the contract: one signature whatever the second transaction is
+    if row.get("c") == "voting" and (op.get("pair") == "term" or (op.get("pair") == "same" and op.get("m") == "terminate")):
+        return "C15:failed-voting-termination-leaves-trace"
+    return "C15:%s:%s" % (clause, signature(row))
 
 
 def main(ctx):
@@ -254,7 +266,7 @@ def main(ctx):
             start = max(i for i in range(line) if ch[i].get("ev") == "Reset")
             exf = ctx.path("replay_%s_%d.ndjson" % (clause, ci))
             vlib.write_ndjson(exf, ch[start:line])
-            key = "C15:%s:%s" % (clause, signature(bad))
+            key = violation_key(clause, bad)
             slim = {k: bad.get(k) for k in ("c", "op", "tx", "rc", "err", "eff", "mid")}
             vlib.report_violation(ctx, key, "clause %s broken by the real node on %s (%s, success=%s, error=%r); observed %s"
                                   % (clause, signature(bad), json.dumps(bad.get("op")), bad["rc"]["success"], bad.get("err"),
@@ -318,6 +330,6 @@ def main(ctx):
         "the proposer of every block is not a party of the contract transaction (block rewards touch the proposer only)",
         "requested balances, burns and wasm deployments are read from the node's own accounting callbacks (stats collector) during the real run",
         "requested store writes / stake moves of embedded contracts are obtained by running the real contract code against a recording environment on the committed pre-state",
-        "store effects of successful wasm runs are opaque (only failure => unchanged is decided for them)",
+        "requested store writes of wasm contracts are obtained by running the contract code with the bought gas through a recording host environment wrapped around the node's own environment object, on a throw-away copy of the committed pre-state",
         "oracle-voting termination (needs > 30000 blocks of waiting) is not reached",
     ])
